@@ -315,3 +315,12 @@ Fixpoint f_trace (mx : N) (st : fstate) (ops : list fop) : list (N * list bool) 
 Definition multi_case_ok (c : multi_case) : bool :=
   let '(mx, ops, expect) := c in
   list_eqb (pair_eqb N.eqb (list_eqb Bool.eqb)) (f_trace mx f_init ops) expect.
+
+(* configuration plumbing: the factory was configured by a SEQUENCE of setProtocolOptions calls; the model runs on the
+   configuration those calls are documented to produce: defaults / constructor values overridden call by call *)
+Record config_case := {
+  fc_base : scfg; fc_calls : list s_update; fc_policy : policy; fc_tables : tables; fc_chunks : list str; fc_expect : s_outcome }.
+Definition config_case_ok (c : config_case) : bool :=
+  s_outcome_eqb (s_result (s_run (configure (fc_base c) (fc_calls c)) (run_env (fc_tables c) (fc_policy c)) (fc_chunks c))) (fc_expect c).
+Definition config_case_out (c : config_case) : s_outcome :=
+  s_result (s_run (configure (fc_base c) (fc_calls c)) (run_env (fc_tables c) (fc_policy c)) (fc_chunks c)).
